@@ -681,6 +681,15 @@ pub fn c12_judge(src: &str) -> Result<Option<(usize, bool, usize)>, Failure> {
             }
             return Ok(None);
         }
+        Outcome::Lex(at, c) => {
+            // the documented rules accept the whole text (it lexed above); a lexical error that kiki raises *inside* a
+            // balanced attribute means that this attribute is not reproduced at all
+            if let Some(t) = toks.iter().find(|t| t.kind == crate::ast::TokKind::OuterAttribute && t.start <= at && at < t.end) {
+                let shown: String = t.text.chars().take(120).collect();
+                return fail("balanced-attribute-rejected", format!("generate returns Lex({at}, {c:?}) inside the balanced single-line attribute at bytes {}..{} (`{shown}`{}), which therefore is not reproduced", t.start, t.end, if t.text.len() > shown.len() { "…" } else { "" }));
+            }
+            return Ok(None);
+        }
         _ => return Ok(None),
     };
     let lines: Vec<&str> = out.split('\n').collect();
@@ -797,11 +806,62 @@ fn nesting_depth(a: &str) -> usize {
     m
 }
 
+/// Attributes beyond the sizes of the random generator: nesting depth 7..=40 (every depth), 63..=66, 127..=130,
+/// 255..=258, 1000, 5000 with the three bracket kinds mixed by a seed-dependent pattern, text and multi-byte characters
+/// at every level; on each declaration kind, alone and between two other attributes.
+fn c12_deep(ctx: &Ctx) -> RunOutcome {
+    let mut st = Stats::default();
+    let mut fails = vec![];
+    let depths: Vec<usize> = (7..=40).chain(63..=66).chain(127..=130).chain(255..=258).chain([1000, 5000]).collect();
+    let open = ['(', '[', '{'];
+    let close = [')', ']', '}'];
+    for (k, &d) in depths.iter().enumerate() {
+        for variant in 0..3u64 {
+            let pat = hash_of(&(ctx.seed, d, variant));
+            let kinds: Vec<usize> = (0..d).map(|i| match variant {
+                0 => (pat as usize + i) % 3,
+                1 => ((pat >> (i % 60)) as usize + i / 60) % 3,
+                _ => (pat as usize) % 3,
+            }).collect();
+            let mut a = String::from("#[m");
+            for (i, &b) in kinds.iter().enumerate() {
+                a.push(open[b]);
+                if i % 5 == variant as usize {
+                    a.push_str(["é", "x ", "𝄞", "\"q\"", "€="][i % 5]);
+                }
+            }
+            for (i, &b) in kinds.iter().enumerate().rev() {
+                if i % 7 == 0 {
+                    a.push_str("中,");
+                }
+                a.push(close[b]);
+            }
+            a.push(']');
+            let text = match (k as u64 + variant) % 4 {
+                0 => format!("start S\n{a}\nstruct S\nterminal T {{ }}"),
+                1 => format!("start S\n#[before]\n{a}\n#[after(1)]\nenum S {{ A }}\nterminal T {{ }}"),
+                2 => format!("start S struct S($X)\n#[b] {a}\nterminal T {{ $X: () }}"),
+                _ => format!("{a} {a}\nstruct S start S\n#[z]\nterminal T {{ }} {a} struct U"),
+            };
+            st.evaluations += 1;
+            match c12_judge(&text) {
+                Ok(Some(_)) => {
+                    st.class("deep-attribute:reproduced");
+                    st.nontrivial(&text);
+                }
+                Ok(None) => st.discard("deep attribute: not accepted by generate (not a lexical error inside the attribute)"),
+                Err(f) => fails.push(f),
+            }
+        }
+    }
+    RunOutcome { stats: st, failures: fails }
+}
+
 pub fn c12_replay(case: &Value) -> Result<(), Failure> {
     c12_judge(&case_text(case)?).map(|_| ())
 }
 
-pub const C12_RULE: &str = "accepted grammars with 0..4 generated attributes on every declaration kind (struct, enum, terminal): balanced nesting of () [] {} to depth 6, ASCII punctuation incl. quotes / # $, tab, CR, 2-, 3- and 4-byte characters, U+00A0, U+2028, each carrying a unique marker; random layouts between attribute and keyword. Oracle (byte level): the lines immediately before `pub struct|enum <Name>` are exactly the written attributes in order, no further attribute line precedes them, every marker occurs in the whole output exactly as often as written, and the number of attribute lines in the emitted type definitions equals the number written. Non-trivial = >= 1 attribute with a multi-byte character, >= 1 nested to depth >= 2 inside the outer brackets and >= 2 attributes on one declaration; distinct = the source text.";
+pub const C12_RULE: &str = "accepted grammars with 0..4 generated attributes on every declaration kind (struct, enum, terminal): balanced nesting of () [] {} to depth 6, ASCII punctuation incl. quotes / # $, tab, CR, 2-, 3- and 4-byte characters, U+00A0, U+2028, each carrying a unique marker; random layouts between attribute and keyword; plus a fixed family of deeply nested attributes (every depth 7..40, around 64 / 128 / 256, 1000, 5000; bracket kinds mixed by a seed-dependent pattern) on every declaration kind. Oracle (byte level): a lexical error raised inside an attribute that the documented rules accept is a violation; the lines immediately before `pub struct|enum <Name>` are exactly the written attributes in order, no further attribute line precedes them, every marker occurs in the whole output exactly as often as written, and the number of attribute lines in the emitted type definitions equals the number written. Non-trivial = >= 1 attribute with a multi-byte character, >= 1 nested to depth >= 2 inside the outer brackets and >= 2 attributes on one declaration; distinct = the source text.";
 
 pub fn c12_run(ctx: &Ctx) -> i32 {
     let mut rep = Report::new(ctx, C12_RULE);
@@ -809,6 +869,7 @@ pub fn c12_run(ctx: &Ctx) -> i32 {
     regress(ctx, &mut rep, "C12", c12_replay);
     let out = run_sharded(ctx, "C12", ctx.budget(150_000, 3_000_000), || raw_text(&[0]), c12_test);
     rep.absorb("E1-proptest", out);
+    rep.absorb("E0-deep-and-wide-attributes", c12_deep(ctx));
     if ctx.tier == Tier::Thorough {
         crate::fuzzrun::run_into(ctx, &mut rep, crate::fuzzrun::Campaign { target: "text_frontend", prop: "C12", runs_total: (ctx.scale * 20_000_000.0) as u64, max_len: 2048, seeds: crate::fuzzrun::text_seeds(), dict: true });
         crate::fuzzrun::run_into(ctx, &mut rep, crate::fuzzrun::raw_campaign("C12", (ctx.scale * 500_000.0) as u64));
